@@ -30,6 +30,8 @@ def check(case):
     classes = list(info["classes"])
     if twice:
         classes.append("unit-used-twice")
+    if cnt and max(cnt.values()) > max(len(v) for v in per.values()):
+        classes.append("unit-repeated-more-than-max-units-per-annotator")
     if soft_d < best_d - 1e-6:
         classes.append("soft<best")
     multi = "multi-unit-unitary" in classes
@@ -37,7 +39,32 @@ def check(case):
 
 
 @st.composite
+def hub(draw):
+    """one annotator with a single long unit facing several short, mutually distant units of the other annotators:
+    the minimum cover repeats the long unit once per short unit (more often than any annotator has units)"""
+    n = draw(st.integers(3, 4))
+    names = ["a", "b", "c", "d"][:n]
+    L = float(draw(st.sampled_from([64, 100, 128])))
+    units = [[names[0], 0.0, L, "A"]]
+    for i, a in enumerate(names[1:]):
+        k = draw(st.integers(2, 3))
+        for j in range(k):
+            pos = (i * 3 + j + 0.5) * L / (3 * (n - 1))
+            w = float(draw(st.sampled_from([2, 4, 6])))
+            units.append([a, round(pos * 4) / 4, round(pos * 4) / 4 + w, draw(st.sampled_from(["A", "B"]))])
+    spec = draw(st.sampled_from([{"kind": "pos", "delta": 1.0}, {"kind": "pos", "delta": 2.0},
+                                 {"kind": "combined", "alpha": 1.0, "beta": 0.0, "delta": 1.0, "pos": None, "cat": None},
+                                 {"kind": "combined", "alpha": 1.0, "beta": 0.25, "delta": 1.0, "pos": None, "cat": None}]))
+    return {"continuum": {"annotators": names, "units": units, "shape": "hub"}, "dissim": spec}
+
+
+@st.composite
 def cases(draw):
+    if draw(st.integers(0, 5)) == 0:
+        cs = draw(hub())
+        cs["backend"] = draw(st.sampled_from(["cbc", "cbc", "glpk"]))
+        cs["xcheck"] = 0
+        return cs
     cs = draw(gen.continuum_and_spec(min_ann=2, max_ann=5, budget=1300, max_per=9, unlabelled_ratio=0.1))
     cs["backend"] = draw(st.sampled_from(["cbc", "cbc", "glpk"]))
     cs["xcheck"] = draw(st.sampled_from([0, 0, 0, 1]))
